@@ -9,6 +9,10 @@ inductive Op where
   | advance (ms : Nat)
   | settle
   | dropHandles
+  /-- a client on another thread sends while the job task is between dequeuing a control and its next `recv`:
+      the task takes turns until one of them handles a control message, the send lands right after that turn
+      (if the task goes idle first, nothing is sent) -/
+  | inject (p : Prio) (ctls : List Ctl) (await : Bool)
   deriving Repr
 
 structure Sim where
@@ -70,11 +74,31 @@ def advanceAll : Nat → Nat → St → List St
       | some t => advanceAll fuel target { s with now := t }
       | none => settleAll 200 { s with now := target })
 
+/-- the two kinds of task turn: the child's end is collected / a control message is handled -/
+def waitTurns (s : St) : List St :=
+  match waitReady s with | some c => [waitBranch { s with parked := false } c] | none => []
+def recvTurns (s : St) : List St :=
+  (recvCandidates s).filterMap (fun src =>
+    match takeFrom s src with
+    | some (m, s1) => some (handle { s1 with parked := false } m)
+    | none => none)
+theorem turnCandidates_eq (s : St) : turnCandidates s = waitTurns s ++ recvTurns s := rfl
+
+/-- see `Op.inject` -/
+def injectAll : Nat → Sim → Prio → List Ctl → Bool → List Sim
+  | 0, x, _, _, _ => [x]
+  | fuel + 1, x, p, cs, aw =>
+    if !x.st.alive then [x] else
+    if (waitTurns x.st).isEmpty && (recvTurns x.st).isEmpty then [x]
+    else (waitTurns x.st).flatMap (fun s' => injectAll fuel { x with st := s' } p cs aw) ++
+         (recvTurns x.st).map (fun s' => doSend { x with st := s' } p cs aw)
+
 def stepOp (x : Sim) : Op → List Sim
   | .send p cs aw => [doSend x p cs aw]
   | .settle => (settleAll 200 x.st).map (fun st => { x with st := st })
   | .advance ms => (advanceAll 64 (x.st.now + ms) x.st).map (fun st => { x with st := st })
   | .dropHandles => [{ x with st := { x.st with closed := true } }]
+  | .inject p cs aw => injectAll 50 x p cs aw
 
 def runOps (x : Sim) : List Op → List Sim
   | [] => [x]
